@@ -42,18 +42,21 @@ def _file_text(rng, i):
     consts = rng.sample(_CONST_NAMES, rng.randint(1, 2))
     txt = f'"""module {i}"""\n\n' + "".join(f"{c} = 30\n" for c in consts) + "\n\n"
     txt += f"def work_{i}(items, threshold, factor):\n" + _BLOCK + "\n\n"
-    txt += f"def check_{i}(env):\n    if env in (\"staging\", \"production\"):\n        return 3.14159 * 4242\n    return 0\n"
+    txt += f"def check_{i}(env):\n    if env in (\"staging\", \"production\", \"development\", \"testing\", \"qa\"):\n        return 3.14159 * 4242\n    return 0\n"
     return txt
 
 
-def _key(vs, root):
+def _key(vs, root, full_constant_messages=False):
     import collections
     import os
     import re
     c = collections.Counter()
     for v in vs:
         names = tuple(sorted(set(re.findall(r"'([A-Z][A-Z_0-9]+)'", v.message)))) if v.rule_id.startswith("dry") else ()
-        c[(v.rule_id, os.path.relpath(str(v.file_path), root), v.line, names)] += 1
+        msg = v.message.replace(root, "<root>")
+        if v.rule_id.startswith("dry") and names and not full_constant_messages:
+            msg = ""  # duplicate-constant messages list the names in discovery order: recorded finding C08-dry-constant-message-order
+        c[(v.rule_id, os.path.relpath(str(v.file_path), root), v.line, v.column, names, msg)] += 1
     return c
 
 
@@ -80,7 +83,7 @@ vs = Orchestrator(project_root=Path(root), config=cfg).lint_files([Path(root) / 
 c = collections.Counter()
 for v in vs:
     names = tuple(sorted(set(re.findall(r"'([A-Z][A-Z_0-9]+)'", v.message)))) if v.rule_id.startswith("dry") else ()
-    c[json.dumps([v.rule_id, os.path.relpath(str(v.file_path), root), v.line, names])] += 1
+    c[json.dumps([v.rule_id, os.path.relpath(str(v.file_path), root), v.line, v.column, names, v.message.replace(root, "<root>")])] += 1
 print(json.dumps(sorted(c.items())))
 '''
 
@@ -182,6 +185,37 @@ def order_history_effects_bounded(ctx):
                     left = sorted(os.listdir(private_tmp))
                     if left:
                         return bad("a lint run left temporary files behind", {"storage_mode": mode, "leftovers": left[:5]})
+            # (d) files EDITED between two calls on the same object are judged by their new state: a .py file whose content
+            # changes, an extension-less script whose shebang changes language, a file that appears, a file that goes
+            if not multi_language:
+                cfg = json.loads(json.dumps(_CONFIG))
+                script = pathlib.Path(root, "tool")
+                late = pathlib.Path(root, "late")
+                script.write_text("#!/bin/sh\necho 4242\n", encoding="utf-8")
+                late.write_text("", encoding="utf-8")
+                targets = [pathlib.Path(root) / f for f in files] + [script, late]
+                clear_ignore_parser_cache()
+                o = Orchestrator(project_root=pathlib.Path(root), config=copy.deepcopy(cfg))
+                first = _key(o.lint_files(targets), root)
+                script.write_text("#!/usr/bin/env python3\ndef planted():\n    return 3.14159 * 4242\n", encoding="utf-8")
+                late.write_text("#!/usr/bin/env python\ndef later():\n    return 2.71828 * 777\n", encoding="utf-8")
+                edited = pathlib.Path(root) / files[0]
+                edited.write_text(edited.read_text(encoding="utf-8") + "\n\ndef added():\n    return 1234567\n", encoding="utf-8")
+                second = _key(o.lint_files(targets), root)
+                clear_ignore_parser_cache()
+                fresh = _key(Orchestrator(project_root=pathlib.Path(root), config=copy.deepcopy(cfg)).lint_files(targets), root)
+                cases += 3
+                if not any(k[1] == "tool" for k in fresh) or not any(k[1] == "late" for k in fresh):
+                    raise RuntimeError("edit scenario too weak: the rewritten scripts carry no violation in a fresh run")
+                if second != fresh:
+                    return bad("files edited between two calls on the same Orchestrator are not judged by their new state",
+                               {"edited": ["tool: sh -> python shebang", "late: empty -> python shebang", files[0] + ": function added"],
+                                "same_object_only": sorted(map(str, (second - fresh).keys()))[:6],
+                                "fresh_only": sorted(map(str, (fresh - second).keys()))[:6]})
+                for pth in (script, late):
+                    pth.unlink()
+                del o
+                gc.collect()
             # (b) hash seeds
             outs = []
             for hs in ("1", "2"):
@@ -216,3 +250,44 @@ def order_history_effects_bounded(ctx):
                  budget=f"{n} projects x all permutations (memory) / 2 orders (tempfile) + 2 hash seeds, seed {ctx.get('seed', 0)}",
                  cases=cases, note=f"{cases} runs: same multiset for every order, storage mode and hash seed; a used object answers like a fresh "
                                    f"one; project directory untouched; no temporary files left")]
+
+
+
+@custom("c08-constant-message-order-bounded", props=["C08"])
+def constant_message_order_bounded(ctx):
+    """BOUNDED, property-level: the FULL violations (message text included) of the duplicate-constant detection are the same
+    for every order of the file list. EXPECTED TO FAIL (C08-dry-constant-message-order): the message enumerates the similar
+    names and the other locations in discovery order. The main bounded check compares these messages by their name SET."""
+    import copy
+    import itertools
+    import os
+    import pathlib
+    import shutil
+    import tempfile
+    name = "custom:c08-constant-message-order-bounded/duplicate-constant-messages"
+    from pyvc import native as _native
+    _native._ensure_repo_on_path()
+    base = tempfile.mkdtemp(prefix="c08msg_")
+    try:
+        from src.orchestrator.core import Orchestrator
+        texts = {"alpha.py": '"""alpha"""\n\nDEFAULT_TIMEOUT = 30\n', "beta.py": '"""beta"""\n\nDEFAULT_TIMEOUT_S = 30\n',
+                 "gamma.py": '"""gamma"""\n\nDEFAUL_TIMEOUT = 30\n'}
+        for fn, tx in texts.items():
+            pathlib.Path(base, fn).write_text(tx, encoding="utf-8")
+        ref = None
+        for perm in itertools.permutations(sorted(texts)):
+            got = _key(Orchestrator(project_root=pathlib.Path(base), config=copy.deepcopy(_CONFIG)).lint_files(
+                [pathlib.Path(base) / f for f in perm]), base, full_constant_messages=True)
+            if ref is None:
+                ref = (perm, got)
+            elif got != ref[1]:
+                w = {"order_a": ref[0], "order_b": perm, "only_a": sorted(map(str, (ref[1] - got).keys()))[:2],
+                     "only_b": sorted(map(str, (got - ref[1]).keys()))[:2]}
+                return [dict(name=name, kind="bounded", verdict="refuted", carries=True, tool="native runs", cases=6, witness_confirmed=True,
+                             budget="3 files, all orders", witness=w, note=f"message text depends on the file order: {w}"[:900])]
+    except BaseException as e:  # noqa
+        return [dict(name=name, kind="bounded", verdict="unknown", carries=True, tool="native runs", note=f"harness error {e!r}"[:300])]
+    finally:
+        shutil.rmtree(base, ignore_errors=True)
+    return [dict(name=name, kind="bounded", verdict="passed", carries=True, tool="native runs", cases=6, budget="3 files, all orders",
+                 note="duplicate-constant messages are identical for every order of the file list")]
